@@ -52,7 +52,9 @@ CLAIMED["C11"] = ("Proof of frame (modifies) contracts for the non-reflective fu
 CLAIMED["C20"] = ("Proof that the own panic sites (index, slice bounds, nil dereference, nil-map write, unchecked type assertion, interface comparison of "
     "uncomparable dynamic types, explicit panic) of the listed decoding entry functions are unreachable for every input: ytypes.unmarshalList (any JSON "
     "value), gnmidiff writeUpdate / protoLeafToJSON / populateUpdateNoSchema (any TypedValue whose oneof wrapper is not a typed nil), ygot.StringToPath, "
-    "StringToStructuredPath, StringToStringSlicePath, extractKV, addKey and util.SplitPath / PathStringToElements (any string), and ytypes.UnmarshalSetRequest with "
+    "StringToStructuredPath, StringToStringSlicePath, extractKV, addKey and util.SplitPath / PathStringToElements (any string), the rendering side "
+    "ygot.PathToString / PathToStrings / PathToSchemaPath / elementsToString / elemToString that gnmidiff applies to every path of a request (any path, nil included, "
+    "whose Elem list has no nil entry - a nil entry cannot come off the wire and does panic), and ytypes.UnmarshalSetRequest with "
     "deletePaths / replacePaths / updatePaths (any SetRequest without nil entries in Replace/Update, any options: under best-effort unmarshalling every "
     "error they hand to the unchecked type assertion in UnmarshalSetRequest is a non-nil *ComplianceErrors). Not covered: panics raised "
     "inside reflect, protobuf and encoding/json calls and inside the reflection walkers (opaque calls), stack exhaustion.", "5 (C20)", "")
